@@ -9,7 +9,8 @@ func init() {
 			"(3) rotation closes the old log on every success path after the pointer swap and Manager.Close closes the current log; " +
 			"(4) atomic publication of SSTables: in Writer.Finish all writes precede Sync, Sync precedes the rename (FinalizeFile), the file is created under the temporary name, loaders skip non-.sst files, flush publishes the reader only after Finish succeeded; " +
 			"(5) destructive file operations on database files are exactly the classified sites; " +
-			"(6) recovery hands every recovered memtable to the read path and restores the sequence counter from the replay maximum; (7) the newest log file is reused for appending only behind a clean entry-boundary scan (so that writes acknowledged after a recovery are themselves recoverable); no read after the first of a record can leave as a clean io.EOF; (8) shared with C03/C09: the batch pre-validation uses writeRecord's own size formula and the buffer provision covers it; fragment writer and reader agree on chunk boundaries.",
+			"(6) recovery hands every recovered memtable to the read path and restores the sequence counter from the replay maximum; (7) the newest log file is reused for appending only behind a clean entry-boundary scan (so that writes acknowledged after a recovery are themselves recoverable); no read after the first of a record can leave as a clean io.EOF; (8) shared with C03/C09: the batch pre-validation uses writeRecord's own size formula and the buffer provision covers it; fragment writer and reader agree on chunk boundaries. " +
+			"Added after blind round 5: the log file is written through the buffered writer only and record writers never flush; error classes of the replay loops distinguish == from errors.Is (a wrapped unexpected EOF must still end the log); recovery's last table stays mutable; precedence slices grow at the end only.",
 		NotDecided: "the state at arbitrary stop instants, torn writes, directory fsync, repeated crash/recover cycles — all need execution under fault injection.",
 		Rules:      []func(*Ctx, *Reporter){ruleStWriteAhead, ruleWalSyncBeforeAck, ruleStRotation, ruleStRecovery, ruleSstFinish, ruleDestructiveOps, ruleStFlushPublish, ruleReuseValidatesTail, ruleWalBatch, ruleWalFragmentation, ruleRecoveryLastTableMutable, ruleWalFileWriters, ruleWalErrorClasses, subRules(ruleLayerOrder, "newest-is-last")},
 	})
@@ -19,7 +20,8 @@ func init() {
 			"(2) one batch — Commit calls ApplyBatch exactly once, not in a loop, never after the lock release; Rollback and the read-only arm never do; " +
 			"(3) ApplyBatch performs the log append and every memtable insert under one continuous exclusive hold of storage.Manager.mu, with no exit between the successful append and the inserts; point readers take it shared; " +
 			"(4) AppendBatch: no flush/sync between the record writes of a batch, every record carries one loop-invariant sequence number, and every input-dependent rejection of writeRecord is tested with the identical size formula before the first record is written; " +
-			"(5) Buffer.Put/Delete copy key and value before storing them (capture at call time) and assign the same map under string(key) (last operation wins); Rollback clears the buffer before releasing the lock; a successful transactional Put/Delete has buffered exactly that operation; (6) shared with C02/C10: a log file is reused for appending only behind a clean tail (a torn batch is never followed by new commits in the same file).",
+			"(5) Buffer.Put/Delete copy key and value before storing them (capture at call time) and assign the same map under string(key) (last operation wins); Rollback clears the buffer before releasing the lock; a successful transactional Put/Delete has buffered exactly that operation; (6) shared with C02/C10: a log file is reused for appending only behind a clean tail (a torn batch is never followed by new commits in the same file). " +
+			"Added after blind round 5: the log file is written through the buffered writer only and the record writers never flush or sync on their own (a batch reaches the file in one piece).",
 		NotDecided: "atomicity across a crash (the log format has no batch frame: a torn batch cannot be recognised at replay — design remark, needs a crash to observe); concurrent-reader interleavings.",
 		Rules:      []func(*Ctx, *Reporter){ruleTxBufferIsolation, ruleTxApplyInside, ruleStSingleWriter, ruleStEffectOnce, ruleWalBatch, ruleTxBufferCapture, ruleTxRollbackClears, ruleTxOpsBuffered, ruleReuseValidatesTail, ruleWalFileWriters},
 	})
@@ -40,7 +42,8 @@ func init() {
 			"(3) hand-over: wherever a freshly constructed WAL becomes the current log in non-constructor code, it first receives the old log's counter; " +
 			"(4) recovery restores the counter to replay-maximum+1 on every success path with a non-zero maximum, and the maximum is a running maximum; " +
 			"(5) the memtable stamp and the reported last sequence are the number the log assigned (batch entries share the batch's number because the log advances by one per batch); lastSeqNum is written only on the write path and by recovery. " +
-			"(6) every Append* reads the closed/rotating status while WAL.mu is held (the hand-over of the counter at rotation relies on it).",
+			"(6) every Append* reads the closed/rotating status while WAL.mu is held (the hand-over of the counter at rotation relies on it). " +
+			"Added after blind round 5: every entry applied by recovery is compared with the running maximum; every access to the counter (GetNextSequence included) holds WAL.mu.",
 		NotDecided: "the actual numbers in a log directory after arbitrary histories; interactions between WAL retention and sequence numbers stored in SSTables.",
 		Rules:      []func(*Ctx, *Reporter){ruleWalMonotone, ruleStRotationSeqOnly, ruleStRecovery, ruleStStamps, ruleWalStatusUnderLock, ruleWalCounterUnderLock},
 	})
@@ -89,7 +92,8 @@ func init() {
 			"(3) version order — decision tables of entry.compareWithEntry, SkipList.Find's selection and SkipList.Insert's position (P-ORD over all orderings); flush keeps the first (newest) entry of a key unless a later one has a strictly higher sequence; " +
 			"(4) stamps — the memtable stamp is the number the log assigned; (5) empty is not deleted — no nil-collapsing copy reaches a 'nil means tombstone' sink and a value entry never keeps nil; " +
 			"(6) flush writes every collected entry, tombstones included, with its own sequence number; the tombstone marker constant is shared by block writer and reader; " +
-			"(7) the SSTable list is given a recency order when loaded from disk; (8) a successful transactional Put/Delete has buffered exactly that operation and pending operations leave the buffer only through Clear; immutable memtables leave the pool only into the flush path; (9) shared with C09: the buffered writer is never replaced without a flush and the fragment writer/reader agree on chunk boundaries (large values survive a reopen).",
+			"(7) the SSTable list is given a recency order when loaded from disk; (8) a successful transactional Put/Delete has buffered exactly that operation and pending operations leave the buffer only through Clear; immutable memtables leave the pool only into the flush path; (9) shared with C09: the buffered writer is never replaced without a flush and the fragment writer/reader agree on chunk boundaries (large values survive a reopen). " +
+			"Added after blind round 5: recovery seals a table only on a path that appends a fresh one behind it (the active table is never sealed); MemTable.Get's table; the comparator does not subtract sequence numbers; sort comparators index the sorted slice.",
 		NotDecided: "that the bytes returned equal the bytes put for every program (values); block/index seek landing inside SSTables (value-level binary search — the pinned tree gets this wrong, declared under C11); effects of memtable-size configurations.",
 		Rules:      []func(*Ctx, *Reporter){ruleLayerOrder, ruleTombstoneShortCircuit, ruleMemComparator, ruleMemFind, ruleMemInsert, ruleFlushRules, ruleStStamps, ruleEmptyNotDeleted, ruleTombstoneMarker, ruleRecencyAtLoad, ruleTxOpsBuffered, ruleWalNoBufferDrop, ruleWalFragmentation, ruleSortKeysFromSortedSlice, ruleMemTableGetTable, ruleRecoveryLastTableMutable, ruleComparatorNoSubtraction},
 	})
